@@ -118,6 +118,8 @@ class Ctx(object):
         self.cur_index = None
         self.cur_params = None
         self.witness_for = None
+        self._bufs = {}
+        self._refill = False
         self.harness_errors = []
         self.raised = {}
         self.t0 = time.time()
@@ -211,6 +213,19 @@ class Ctx(object):
             raise SolverRaised(k, e)
 
     def call(self, solver, points, t):
+        # in half of the cases the harness behaves like a user who keeps one work array per solver object and refills it in
+        # place: when a request has the shape of the previous one for the same object, the library is handed the *same*
+        # float64 array with the new contents (a cache that recognises a request by the identity of its array, or that
+        # remembers the caller's array instead of a copy, answers with the previous request's values)
+        if self._refill and isinstance(points, np.ndarray) and points.dtype == np.float64 and points.flags.c_contiguous and points.ndim <= 2:
+            prev = self._bufs.get(id(solver))
+            if prev is not None and prev[0] is solver and prev[1].shape == points.shape:
+                prev[1][...] = points
+                points = prev[1]
+                self.count("requests_in_a_refilled_work_array")
+            else:
+                points = np.array(points, dtype=float)
+                self._bufs[id(solver)] = (solver, points)
         try:
             with contextlib.redirect_stdout(io.StringIO()):
                 return solver(points, t)
@@ -231,6 +246,8 @@ class Ctx(object):
     # ---- running cases -----------------------------------------------------------
     def run_case(self, unit, index, params):
         self.cur_unit, self.cur_index, self.cur_params = unit.name, index, params
+        self._bufs = {}
+        self._refill = bool(zlib.crc32(json.dumps(jsonable(params), sort_keys=True, default=str).encode()) & 2)
         self.count("cases_run:" + unit.name)
         _t0 = time.time()
         try:
